@@ -715,7 +715,9 @@ class UnionUnmarshaller(AbstractUnmarshaller[UnionT], tp.Generic[UnionT]):
         super().__init__(t, context, var=var)
         self.stack = inspection.args(t, evaluate=True)
         if inspection.isoptionaltype(t):
-            self.stack = (self.stack[-1], *self.stack[:-1])
+            # `None` is honoured wherever it was declared, the other members keep their order.
+            nulls = (*(a for a in self.stack if inspection.isnonetype(a)),)
+            self.stack = (*nulls, *(a for a in self.stack if a not in nulls))
 
         self.ordered_routines = [self.context[typ] for typ in self.stack]
 
